@@ -122,6 +122,24 @@ func (d *SMTPDriver) Data(body string) (mid, final Reply) {
 	return mid, final
 }
 
+// DataEager is Data by a client that does not wait for the 354: the DATA line, the message and the
+// terminator leave in ONE write (a pipelining client, or one that writes its whole dialogue before
+// it reads).  Both replies are then read.
+func (d *SMTPDriver) DataEager(body string) (mid, final Reply) {
+	d.Log = append(d.Log, fmt.Sprintf("C: DATA + <%d bytes of data + terminator> in one write", len(body)))
+	if err := d.K.Write([]byte("DATA\r\n" + DotStuff(body))); err != nil {
+		return Reply{Why: "write failed: " + err.Error()}, Reply{}
+	}
+	mid = d.K.ReadSMTPReply()
+	d.Log = append(d.Log, "S: "+mid.String())
+	if mid.Code != 354 {
+		return mid, Reply{}
+	}
+	final = d.K.ReadSMTPReply()
+	d.Log = append(d.Log, "S: "+final.String())
+	return mid, final
+}
+
 // Delivered must be called when the final reply after data was 2xx: it returns the envelope that
 // the message must have been delivered to and discards it.
 func (d *SMTPDriver) Delivered() (from string, rcpts []string) {
